@@ -1,6 +1,7 @@
 import Qentem.Model.Tmpl.Render
 import Qentem.Model.Tmpl.WF
 import Qentem.Model.Tmpl.Spec
+import Qentem.Model.GroupTmpl
 import Qentem.Driver.Expr
 import Qentem.Driver.Proto
 namespace Qentem.Driver.Tmpl
@@ -16,8 +17,9 @@ Driver of the template model (C01/C02/C17).
 `<w>` (character width) is ignored by the model.  `<doc>`: comma-separated prefix code
   u | z | t | f | n<dec> | i<signed dec> | s<u.u.u> (s alone = empty) | a<count> doc… | p doc |
   o<count> (k<u.u.u> doc)…
-Real numbers are not rendered by this driver (`fmtReal` prints `?`), group/sort are not supported
-(`groupBy` gives no value, `sortDoc` is the identity): the generators avoid them.
+Real numbers are not rendered by this driver (`fmtReal` prints `?`); `groupBy` is the GroupBy model
+(`Qentem.Value.groupByTmpl`, Model/GroupTmpl.lean; C18); sort is not supported (`sortDoc` is the
+identity): the generators of the compared streams avoid `sort=`.
 -/
 
 partial def parseDoc : List String → Option (Doc × List String)
@@ -79,7 +81,7 @@ def mkCtx (content : List Nat) (root : Doc) : RCtx Float where
   realOfBits := fun b => Float.ofBits b.toUInt64
   realBits := fun r => r.toBits.toNat
   fmtReal := fun _ => [63]
-  groupBy := fun _ _ => none
+  groupBy := Qentem.Value.groupByTmpl (fun _ => [63])
   sortDoc := fun d _ => d
 
 mutual
